@@ -101,7 +101,8 @@ def latch(ck, F, E):
                    "latest_error = Some(..) exactly on the Err arm", "%s does not latch the error exactly on its Err arm" % fn, b.span)
     tk = F.one("JsInterpreter::take_latest_error", "abasic_web")
     if tk is not None:
-        ok = any(c.callee.endswith("Option::take") for c in tk.calls())
+        ok = any(c.callee.endswith("Option::take") or (c.callee.endswith("mem::take") and "latest_error" in show(tk.expr(c.args[0])))
+                 for c in tk.calls())
         ck.require(ok, "C19:LATCH:take", "latch discipline", "take_latest_error() is Option::take",
                    "take_latest_error no longer clears the latch", tk.span)
     gs = F.one("JsInterpreter::get_state", "abasic_web")
